@@ -252,7 +252,7 @@ func fieldSeed(owner types.Type, f *types.Var) (uval, bool) {
 		return uval{}, false
 	}
 	switch name {
-	case "Center", "P1", "P2", "Tip", "Base", "MinVal", "MaxVal", "min", "max":
+	case "Center", "P1", "P2", "Tip", "Base", "MinVal", "MaxVal", "min", "max", "Coord":
 		if coord {
 			return known(dimL, kPoint), true
 		}
@@ -373,6 +373,15 @@ func (e *unitsEngine) compute(v ssa.Value) uval {
 		return uval{}
 	case *ssa.Call:
 		return e.callResult(x, 0)
+	case *ssa.Index:
+		// component of c.Array()
+		if at, ok := x.X.Type().Underlying().(*types.Array); ok && isFloat(at.Elem()) {
+			u := e.val(x.X)
+			if u.st == uKnown {
+				u.kind = kScalar
+			}
+			return u
+		}
 	}
 	return uval{}
 }
@@ -429,6 +438,33 @@ func (e *unitsEngine) load(x *ssa.UnOp) uval {
 		return uval{}
 	case *ssa.Alloc:
 		return e.addrValue(a)
+	case *ssa.Parameter:
+		// *p for a pointer parameter: what this function stores through it
+		res := uval{st: uPoly}
+		any := false
+		for _, ref := range *a.Referrers() {
+			if st, ok := ref.(*ssa.Store); ok && st.Addr == ssa.Value(a) {
+				res = joinU(res, e.val(st.Val))
+				any = true
+			}
+		}
+		if any && res.st == uKnown {
+			return res
+		}
+		return uval{}
+	case *ssa.IndexAddr:
+		// element of a local array that holds c.Array()
+		if al, ok := a.X.(*ssa.Alloc); ok {
+			if at, ok := al.Type().Underlying().(*types.Pointer); ok {
+				if arr, ok := at.Elem().Underlying().(*types.Array); ok && isFloat(arr.Elem()) {
+					u := e.addrValue(al)
+					if u.st == uKnown {
+						u.kind = kScalar
+						return u
+					}
+				}
+			}
+		}
 	}
 	return uval{}
 }
@@ -719,11 +755,13 @@ func (e *unitsEngine) callResult(call *ssa.Call, idx int) uval {
 				return uval{}
 			}
 			return a
-		case "Sum", "MaxCoord", "Array":
-			if a.st == uKnown && name != "Array" {
+		case "Sum", "MaxCoord":
+			if a.dimKnown() {
 				return known(a.d, kScalar)
 			}
 			return uval{}
+		case "Array":
+			return a
 		}
 		return uval{}
 	}
